@@ -1,6 +1,6 @@
 """MIR symbolic executor: runs the crate's own functions from the MIR dump; forks on symbolic branches
 (depth-first by re-execution), feasibility and oracle queries go to z3."""
-import re, time, collections, sys
+import re, time, collections, sys, os
 import z3
 
 from .values import *
@@ -40,8 +40,9 @@ class Path:
 class Engine:
     def __init__(self, mir, src, log=None):
         self.mir = mir; self.src = src
+        self.solver_timeout_ms = int(os.environ.get('VERIF_SOLVER_TIMEOUT_MS', '60000'))
         self.solver = z3.Solver()
-        self.solver.set('timeout', 60000)
+        self.solver.set('timeout', self.solver_timeout_ms)
         self.stats = collections.Counter()
         self.decisions = []; self.pos = 0; self.pc = []; self.pending = []
         self.events = []; self.notes = {}
@@ -201,7 +202,7 @@ class Engine:
             if time_limit and time.time() - t0 > time_limit: raise Budget('time limit %ds exceeded after %d paths' % (time_limit, len(results)))
             self.decisions = self.pending.pop(); self.pos = 0; self.pc = []
             self.events = []; self.notes = {}; self.depth = 0; self.steps = 0; self.call_stack = []
-            self.solver.reset(); self.solver.set('timeout', 60000)
+            self.solver.reset(); self.solver.set('timeout', self.solver_timeout_ms)
             self.stats['paths'] += 1
             try:
                 r = run(self)
@@ -242,7 +243,7 @@ class Engine:
         return ' <- '.join(reversed([n.split('>::')[-1] if '<impl at' in n else n for n in self.call_stack[-7:]]))
 
     def model_of(self, path, extra=()):
-        s = z3.Solver(); s.set('timeout', 60000)
+        s = z3.Solver(); s.set('timeout', self.solver_timeout_ms)
         s.add(*path.pc)
         for c in extra: s.add(zbool(c))
         t0 = time.time(); r = s.check(); self.solver_s += time.time() - t0; self.stats['queries'] += 1
